@@ -20,7 +20,7 @@ func init() {
 			"(R1) every function that places rows into a table chosen with user-supplied relation targets registers those targets; (R2) every caller of pool-recycle tests the target flag of the recycled entity and, when set, runs the cleanup and clears the flag; " +
 			"(R3) free protocol: at every site that frees a table (sets its free flag) the operation removes the table from all four lookup containers — the archetype's active list, the per-column target index, the per-target table index (for every target of the table) and every cached filter; tables put on a free list are marked free, tables taken from it are recycled; " +
 			"(R4) every path that activates a table registers it with the archetype and the filter cache; (R5) relation component/target validity checks precede taking or creating the table; (R6) exact table lookup compares whole entities (id and generation); " +
-			"(R7) the per-column target index is indexed by column index only; (R8) the target-validity check is unreachable from the target cleanup: after a batch removal the remaining targets of a table may be entities of the same batch that are still to be cleaned up, so validating them can only fail a valid call. Not decided: multi-step target-death histories; that the protocols compose.",
+			"(R7) the per-column target index is indexed by column index only; (R8) the target-validity check is unreachable from the target cleanup: after a batch removal the remaining targets of a table may be entities of the same batch that are still to be cleaned up, so validating them can only fail a valid call; (R9) the lookup containers are sets: a table id is appended to a table-id container outside loops, or to a container selected by the loop variable itself, or under a negative membership test. Not decided: multi-step target-death histories; that the protocols compose.",
 		TrustedBase: []string{"go/types, go/cfg", "container purge summaries derived from loops over the lookup containers", "single-relation idiom: a table of an archetype with one relation has exactly one target"},
 		Rules: []Rule{
 			{ID: "C04/R1", Run: c04r1, Min: 1},
@@ -31,6 +31,7 @@ func init() {
 			{ID: "C04/R6", Run: c04r6, Min: 1},
 			{ID: "C04/R7", Run: c04r7, Min: 1},
 			{ID: "C04/R8", Run: c04r8, Min: 1},
+			{ID: "C04/R9", Run: c04r9, Min: 1},
 		},
 	})
 }
@@ -1093,7 +1094,19 @@ func c04r6(c *core.Ctx) {
 				return true
 			}
 			lk, rk := fieldKeyOf(m, be.X), fieldKeyOf(m, be.Y)
-			involvesTarget := strings.Contains(m.ExprString(be.X), "target") || strings.Contains(m.ExprString(be.Y), "target")
+			// a comparison of relation targets: an operand reads the target field of a relation or of a column
+			involvesTarget := false
+			for _, side := range []ast.Expr{be.X, be.Y} {
+				ast.Inspect(side, func(y ast.Node) bool {
+					if sel, ok := y.(*ast.SelectorExpr); ok {
+						switch fieldKeyOf(m, sel) {
+						case "relationID.target", "column.target":
+							involvesTarget = true
+						}
+					}
+					return true
+				})
+			}
 			if !involvesTarget {
 				return true
 			}
@@ -1111,6 +1124,74 @@ func c04r6(c *core.Ctx) {
 	if n == 0 {
 		c.Undecide("C04/R6", "target comparisons", "none found in table match functions")
 	}
+	// the per-target lookup hands out a table only under the match test: the per-column index is keyed by the target's
+	// id alone, so without the test a recycled id finds the table of the dead target it replaced
+	for _, f := range m.Funcs {
+		if f.Sig == nil || f.Sig.Results().Len() != 2 || !isPtrTo(f.Sig.Results().At(0).Type(), "table") || !returnsBoolAt(f, 1) {
+			continue
+		}
+		reads := false
+		core.InspectNoLits(f.Body, func(x ast.Node) bool {
+			if sel, ok := x.(*ast.SelectorExpr); ok {
+				switch fieldKeyOf(m, sel) {
+				case "archetype.relationTables", "archetypeData.targetTables":
+					reads = true
+				}
+			}
+			return true
+		})
+		if !reads {
+			continue
+		}
+		core.InspectNoLits(f.Body, func(x ast.Node) bool {
+			rs, ok := x.(*ast.ReturnStmt)
+			if !ok || len(rs.Results) != 2 {
+				return true
+			}
+			tv, ok := m.Info.Types[rs.Results[1]]
+			if !ok || tv.Value == nil || tv.Value.String() != "true" {
+				return true
+			}
+			ts := m.ExprString(ast.Unparen(rs.Results[0]))
+			subject := fmt.Sprintf("%s: return %s, true", f.Name, ts)
+			spec := core.GuardSpec{
+				Only: f,
+				GuardAtom: func(ff *core.Func, at core.Atom) bool {
+					call, ok := ast.Unparen(at.Expr).(*ast.CallExpr)
+					if !ok || !at.Truth {
+						return false
+					}
+					k, cal, _ := m.Callee(call)
+					if k != core.CallStatic || cal.Recv != "table" || !returnsBool(cal) || relationIDsParam(cal) == nil {
+						return false
+					}
+					sel, ok := ast.Unparen(call.Fun).(*ast.SelectorExpr)
+					return ok && m.ExprString(ast.Unparen(sel.X)) == ts
+				},
+				Needs: func(ff *core.Func, y ast.Node) []core.Witness {
+					if y == ast.Node(rs) {
+						return []core.Witness{{What: "return of a table"}}
+					}
+					return nil
+				},
+				SkipCallee: func(*core.Func) bool { return true },
+			}
+			if len(m.MustPrecede(spec).Unguarded[f]) == 0 {
+				c.OK("C04/R6", subject, c.At(rs.Pos()), "the table found through the per-target index is returned only after it matched the requested relations")
+			} else {
+				c.Violation("C04/R6", subject, c.At(rs.Pos()), fmt.Sprintf("%s returns a table found through the per-target index (keyed by target id only) without having matched it against the requested relations; a dead target whose id was recycled would resolve to the table of the newer entity instead of being rejected", f.Name))
+			}
+			return true
+		})
+	}
+}
+
+func returnsBoolAt(f *core.Func, i int) bool {
+	if f.Sig == nil || f.Sig.Results().Len() <= i {
+		return false
+	}
+	b, ok := f.Sig.Results().At(i).Type().Underlying().(*types.Basic)
+	return ok && b.Kind() == types.Bool
 }
 
 // c04r7: archetype.relationTables is indexed by column index only.
